@@ -5,6 +5,7 @@ twice) is turned into a sequence of events:
 
   ("G", True|False, site)     fill guard  `count < capacity`  outcome
   ("ABSENT",)                 Option::as_pin_mut(stream) took the None arm  (upstream gone)
+  ("PRESENT",)                Option::as_pin_mut(stream) took the Some arm  (upstream still there)
   ("U", "Some"|"None"|"Pending"|"Err", bb)   upstream poll and its outcome on this path
   ("SETNONE",)                Pin::set(stream, None)
   ("F", bb)                   user closure called (for_each_concurrent)
@@ -231,6 +232,9 @@ class AdapterModel:
                             ev.append(("ABSENT", bb))
                         if lab[0] == "notvariants" and place_str(lab[3]) in self.aspin.values() and "Some" in lab[2]:
                             ev.append(("ABSENT", bb))
+                        if (lab[0] == "variant" and lab[2] == "Some" or lab[0] == "notvariants" and "None" in lab[2]) \
+                                and place_str(lab[3]) in self.aspin.values():
+                            ev.append(("PRESENT", bb))
             if bb in self.up_sites:
                 dest = place_str(self.up_sites[bb]["dest"])
                 out = None
@@ -362,6 +366,11 @@ def simulate(ev, cap_ge_1=True):
             if st["stream"] == "Some":
                 return False, st
             st["stream"] = "None"
+        elif k == "PRESENT":
+            # Option::as_pin_mut(stream) took the Some arm: the upstream is still there
+            if st["stream"] == "None":
+                return False, st
+            st["stream"] = "Some"
         elif k == "U":
             if st["stream"] == "None":
                 # the upstream is only reachable through the Some arm of Option::as_pin_mut (C05 R5.4 / C10 R10.1
